@@ -7,28 +7,34 @@ def parseProg (s : String) : List Text := if s = "-" then [] else (s.splitOn ","
 
 /-- the schedule is over yield points (enter, register×k, dump, exit); the model's steps are the
     registrations and the dump: drop each saver's first (enter) and last (exit) turn -/
-def modelSchedule (progs : List (List Text)) (sched : List Nat) : List Nat :=
+def modelSchedule (alwaysDump : Bool) (progs : List (List Text)) (sched : List Nat) : List Nat :=
   let rec go (seen : List Nat) : List Nat → List Nat
     | [] => []
     | i :: rest =>
       let k := (progs[i]?.getD []).length
       let nth := (seen.filter (· = i)).length          -- how many turns saver i already had
-      let total := if k = 0 then 2 else k + 3
+      let total := if k = 0 ∧ !alwaysDump then 2 else k + 3
       let keep := nth ≥ 1 ∧ nth + 1 < total
       (if keep then [i] else []) ++ go (i :: seen) rest
   go [] sched
 
-def render (s : Saver) : String :=
+/-- lazy modes: the table read with the file (sheet 1 = x, y; sheet 2 = r, x, never deserialized) -/
+def lazyLoaded : Table := [['x'], ['y'], ['r']]
+def lazyRawIdx : String := "|2,0"
+
+def render (tail : String) (s : Saver) : String :=
   let t := s.dumped.getD []
-  s!"sst={",".intercalate (t.map String.ofList)};idx={",".intercalate (s.got.map toString)}"
+  s!"sst={",".intercalate (t.map String.ofList)};idx={",".intercalate (s.got.map toString)}{tail}"
 
 def handle (args : List String) : String :=
   match args with
-  | "run" :: _mode :: sched :: ps =>
+  | "run" :: mode :: sched :: ps =>
+    let lazy := mode.startsWith "lazy"
     let progs := ps.map parseProg
     let σ := sched.toList.filterMap (fun c => if c.isDigit then some (c.toNat - 48) else none)
-    let final := runSched (progs.map (fun p => ({ todo := p } : Saver))) (modelSchedule progs σ)
-    " # ".intercalate (final.map render)
+    let loaded : Table := if lazy then lazyLoaded else []
+    let final := runSched (progs.map (fun p => ({ todo := p, table := loaded } : Saver))) (modelSchedule lazy progs σ)
+    " # ".intercalate (final.map (render (if lazy then lazyRawIdx else "")))
   | _ => "bad-op"
 
 end Umya.Driver.C16
